@@ -1,11 +1,13 @@
 #!/bin/bash
 # Re-run the quick tier of every property against every seeded change kept under /verif/seeded (scratch copy of /repo's HEAD + the patch).
+# RECHECK_ONLY=<regex> restricts the run to matching directory names; VERIF_SEED is passed through (schedule-dependent changes should be caught under every seed).
 # Expected: exit status 1 with VIOLATION lines for each.  Usage: tools/seeding/recheck_all.sh [summary-file]
 V=$(cd "$(dirname "$0")/../.." && pwd)
 OUT=${1:-/var/tmp/seeded_recheck.txt}
 : > "$OUT"
 for d in "$V"/seeded/*/; do
   name=$(basename "$d"); prop=${name:0:3}
+  if [ -n "$RECHECK_ONLY" ] && ! echo "$name" | grep -Eq "$RECHECK_ONLY"; then continue; fi
   S=/var/tmp/seeded_scratch_$name
   rm -rf "$S"; mkdir -p "$S"
   git -C /repo archive HEAD tlx | tar -x -C "$S"
